@@ -527,6 +527,22 @@ where
         quotient_degrees.push(quotient_degree);
     }
 
+    // `degree_bits` is prover-supplied and is used below as a shift amount and as the log-size of
+    // the trace and quotient domains: bound it first. No evaluation domain has more points than
+    // the base field has bits (the tighter PCS-specific limit, e.g. the two-adicity, is not
+    // available through the generic PCS interface).
+    for (&ext_db, &log_qd) in degree_bits.iter().zip(log_quotient_degrees.iter()) {
+        let log_quotient_domain_size = ext_db.checked_add(log_qd);
+        if log_quotient_domain_size
+            .is_none_or(|s| s >= usize::BITS as usize || s > Val::<SC>::bits())
+        {
+            return Err(VerificationError::InvalidProofShape(format!(
+                "degree_bits {ext_db} out of range (log quotient degree {log_qd}, base field bit width {})",
+                Val::<SC>::bits()
+            )));
+        }
+    }
+
     // Challenger initialisation mirrors the native batch-STARK verifier transcript.
     // Native uses observe_base_as_algebra_element which decomposes to D coefficients,
     // so we use observe_ext to match.
